@@ -1,6 +1,7 @@
 """C01 - civil calendar facts are exactly proleptic Gregorian (narrow)."""
 from ..rules_shape import floor_a, const_agree, month_table
 from ..e5 import run_e5
+from ..rules_contract import run_contracts
 
 
 def run(ctx, rep):
@@ -10,3 +11,4 @@ def run(ctx, rep):
     const_agree(rep, prog)
     month_table(rep, prog)
     run_e5(rep)
+    run_contracts(ctx, rep)
